@@ -18,7 +18,8 @@ TraceInit == Init /\ l = 1
 Ev == Rec[l]
 
 Result(e) ==
-    IF e.a = "mint" THEN MintTo(bal, e.to, e.coins)
+    IF e.a = "setmeta" THEN [ok |-> TRUE, bal |-> bal]
+    ELSE IF e.a = "mint" THEN MintTo(bal, e.to, e.coins)
     ELSE IF e.a = "send" THEN SendFromTo(bal, e.from, e.to, e.coins)
     ELSE BurnFrom(bal, e.from, e.coins)
 
@@ -29,8 +30,10 @@ TraceStep ==
     /\ IF Ev.ev = "reset"
        THEN /\ bal' = [a \in Accounts |-> [d \in Denoms |-> 0]]
             /\ supply' = [d \in Denoms |-> 0]
+            /\ meta' = [d \in Denoms |-> ""]
        ELSE LET r == Result(Ev) IN
             /\ bal' = r.bal
+            /\ meta' = IF Ev.a = "setmeta" THEN [meta EXCEPT ![Ev.from] = Ev.to] ELSE meta
             /\ supply' = IF ~r.ok THEN supply
                          ELSE [d \in Denoms |-> supply[d]
                                  + (IF Ev.a = "mint" THEN Tot(Ev.coins, d) ELSE 0)
@@ -55,6 +58,9 @@ ObsInv ==
               LET c == e.supply[j] IN
               \/ (c[3] = 0 /\ c[2] = supply[c[1]])
               \/ PrintT(<<"MISMATCH line", l - 1, "supply", c, "specification", supply[c[1]]>>) /\ FALSE
+        /\ \A j \in 1..Len(e.meta) :
+              \/ e.meta[j][2] = meta[e.meta[j][1]]
+              \/ PrintT(<<"MISMATCH line", l - 1, "denom metadata", e.meta[j], "specification", meta[e.meta[j][1]]>>) /\ FALSE
 
 (* Ok/Err is checked on the transition (needs the state before the operation) *)
 OkMatches ==
